@@ -48,6 +48,18 @@ typedef BDDTopDownTreeAut AutT;
 #endif
 #define SIM (SEL & 1)
 #define ALG (SEL >> 1)
+// PRESAN 1: the caller sanitises the pair first (SanitizeAutsForInclusion, as the CLI and the unit tests do); needed when the
+// caller supplies a relation over the joint numbering.  PRESAN 0: CheckInclusion is called on the automata as loaded
+// (useless states, arbitrary numbers) - the selections without a supplied relation sanitise copies themselves.
+#ifndef PRESAN
+#define PRESAN (SIM && !(ENC == 0 && ALG == 2))
+#endif
+#ifndef AFIN
+#define AFIN ~0u
+#endif
+#ifndef BFIN
+#define BFIN ~0u
+#endif
 // which selections exist (src/bdd_bu_tree_aut_incl.cc, src/bdd_td_tree_aut_incl.cc, src/bdd_*_tree_aut_sim.cc):
 //   top-down:  downward recursive (with/without cache); with simulation only if the caller has one (ComputeSimulation is not implemented)
 //   bottom-up: upward without simulation; upward with a supplied relation (the upward simulation is not implemented);
@@ -60,8 +72,8 @@ typedef BDDTopDownTreeAut AutT;
 
 extern "C" void harness(void)
 {
-  BA::Aut<NA> A; A.draw(AFREE);
-  BA::Aut<NB> B; B.draw(BFREE);
+  BA::Aut<NA> A; A.draw(AFREE, AFIN);
+  BA::Aut<NB> B; B.draw(BFREE, BFIN);
 #if ENC == 0 && ALG == 0 && (defined(KF_EXCLUDE_BU_UP_RANK2) || defined(KF_EXPECT_BU_UP_RANK2))
   // known finding (open): the bottom-up upward algorithm (src/tree_incl_up.hh) joins the macro-states known for a child
   // instead of choosing one per position, which is wrong as soon as the smaller automaton has a rule of rank >= 2.
@@ -88,7 +100,11 @@ extern "C" void harness(void)
 #if !IMPLEMENTED
   vs_allow_throw(1);
 #endif
+#if PRESAN
   AutBase::StateType states = AutBase::SanitizeAutsForInclusion(smaller, bigger);
+#else
+  AutBase::StateType states = NA + NB;
+#endif
   InclParam ip;
   ip.SetAlgorithm(InclParam::e_algorithm::antichains);
   ip.SetDirection(ALG == 0 ? InclParam::e_direction::upward : InclParam::e_direction::downward);
